@@ -1,13 +1,18 @@
-"""C11 -- filter_by_length under contract (complete functional spec)."""
+"""C11 -- filter_by_length (complete functional spec) and trees.delete_terminal (leaf removal with upward pruning and
+renumbering) under contract."""
 import z3
 from pyvc.core import Contract
 from pyvc.sym import (VInt, VBool, VStr, VRef, VNone, INT, BOOL, STR, REF, TOpt, conj, disj, neg, ite, implies,
                       length, tobool, toint, tostr, fresh_name)
-from contracts.common import add_common, WF
+from pyvc.sym import qforall
+from contracts.common import add_common, WF, wf_theory, desc, T_idx
 
-VERIFY = ["trees.transform.filter_by_length"]
-TRUSTED = []
+VERIFY = ["trees.transform.filter_by_length", "trees.trees.delete_terminal"]
+TRUSTED = ["contract of trees.terminals used at the call site (verified under C19); wf_theory (see C19)"]
 ASSUMPTIONS = ["filtervalue is an integer (misc.options_dict converts digit strings), filteroperator a string"]
+
+
+_SPEC = {}
 
 
 def as_ref(v):
@@ -37,3 +42,147 @@ def build(reg):
                                               VBool(params.fields["has"]["filtervalue"])),
         ensures={"drops_exactly_the_trees_the_operator_names": post},
         result_type=REF))
+
+
+    # ------------------------------------------------------------------------------------------------------------
+    # trees.delete_terminal(tree, leaf)
+    # ------------------------------------------------------------------------------------------------------------
+    def root0(H, tree):
+        return H.anc(tree, VInt(0))
+
+    def dt_requires(S, tree, leaf):
+        H = S.H
+        return conj(WF(H, tree), tree != None, WF(H, leaf), leaf != None, wf_theory(H),
+                    VBool(H.nchild_t(leaf.t) == 0), VBool(z3.Select(H.f["has_num"], leaf.t)),
+                    # the leaf belongs to the tree
+                    VBool(H.anc(leaf, VInt(0)).t == root0(H, tree).t))
+
+    def climb_inv(S):
+        H, tree, root = S.H, S.tree, S.root
+        return conj(root != None, WF(H, root), desc(H, root, tree))
+
+    def on_chain(H0, L0, n, lo, hi):
+        """n is the ancestor of L0 at a depth strictly between lo and hi"""
+        return z3.And(tobool(WF(H0, VRef(n))), lo < H0.depth(VRef(n)).t, H0.depth(VRef(n)).t < hi,
+                      H0.anc(L0, H0.depth(VRef(n))).t == n)
+
+    def pruned_shape(H, H0, L0, top):
+        """the child lists after pruning up to `top` (an ancestor of the leaf L0, or L0 itself when nothing was removed
+        yet): the unary nodes strictly between lost their only child, `top` lost the child the leaf hangs below, every
+        other list is as before"""
+        n, k = z3.Int(fresh_name("sn")), z3.Int(fresh_name("sk"))
+        dl, dt = H0.depth(L0).t, H0.depth(top).t
+        below = H0.anc(L0, VInt(dt + 1))                    # the child of `top` on the way to the leaf
+        p = H0.pos(below).t
+        unchanged = lambda m: z3.And(H.nchild_t(m) == H0.nchild_t(m),
+                                     z3.Select(H.f["child"], m) == z3.Select(H0.f["child"], m))
+        return z3.And(
+            z3.Implies(top.t == L0.t, z3.ForAll([n], unchanged(n))),
+            z3.Implies(top.t != L0.t, z3.And(
+                H.nchild_t(top.t) == H0.nchild_t(top.t) - 1,
+                qforall([k], z3.Implies(z3.And(0 <= k, k < H.nchild_t(top.t)),
+                                        H.child_t(top.t, k) == z3.If(k < p, H0.child_t(top.t, k),
+                                                                     H0.child_t(top.t, k + 1))),
+                        [H.child_t(top.t, k)]),
+                qforall([n], z3.Implies(on_chain(H0, L0, n, dt, dl),
+                                        z3.And(H.nchild_t(n) == 0, H0.nchild_t(n) == 1)), [H.nchild_t(n)]),
+                qforall([n], z3.Implies(z3.And(z3.Not(on_chain(H0, L0, n, dt, dl)), n != top.t), unchanged(n)),
+                        [H.nchild_t(n)]))))
+
+    def prune_inv(S):
+        H, H0 = S.H, S.old
+        L0, leaf, parent = S.entry("leaf"), S.final("leaf"), S.parent
+        return conj(leaf != None, WF(H0, leaf), desc(H0, leaf, L0),
+                    VBool(parent.t == H0.parent_t(leaf.t)),
+                    VBool(z3.Implies(leaf.t != L0.t, H0.depth(leaf).t < H0.depth(L0).t)),
+                    VBool(pruned_shape(H, H0, L0, leaf)))
+
+    def in_T0(H0, root, n):
+        T = H0.terms(root)
+        i = T_idx(H0, root, VRef(n)).t
+        return z3.And(0 <= i, i < T.n, T.get(i).t == n)
+
+    def renum(H, H0, root, num0, upto):
+        """tokens T0[0:upto] with a number above num0 moved down by one; every other number is as before"""
+        n = z3.Int(fresh_name("rn"))
+        idx = lambda m: T_idx(H0, root, VRef(m)).t
+        v0 = lambda m: z3.Select(H0.f["val_num"], m)
+        return z3.And(
+            qforall([n], z3.Select(H.f["val_num"], n) ==
+                    z3.If(z3.And(in_T0(H0, root, n), idx(n) < upto, v0(n) > num0), v0(n) - 1, v0(n)),
+                    [z3.Select(H.f["val_num"], n)]),
+            qforall([n], z3.Select(H.f["has_num"], n) == z3.Select(H0.f["has_num"], n),
+                    [z3.Select(H.f["has_num"], n)]))
+
+    def renum_inv(S):
+        H, H0 = S.H, S.old
+        root = root0(H0, S.tree)
+        return VBool(renum(H, H0, root, z3.Select(H0.f["val_num"], S.entry("leaf").t), toint(S.it)))
+
+    def dt_post_result(S, tree, leaf, result):
+        """the lowest ancestor of the leaf that keeps a child, else the root (the leaf itself if it is the root)"""
+        H0 = S.old
+        n = z3.Int(fresh_name("pn"))
+        dl, dr = H0.depth(leaf).t, H0.depth(result).t
+        return conj(result != None, WF(H0, result), desc(H0, result, leaf),
+                    VBool(z3.Implies(H0.parent_t(leaf.t) == 0, result.t == leaf.t)),
+                    VBool(z3.Implies(H0.parent_t(leaf.t) != 0, z3.And(
+                        dr < dl,
+                        # everything strictly between was a unary chain ...
+                        qforall([n], z3.Implies(on_chain(H0, leaf, n, dr, dl), H0.nchild_t(n) == 1),
+                                [H0.nchild_t(n)]),
+                        # ... and the result is the first node with another child, or the root
+                        z3.Or(H0.parent_t(result.t) == 0, H0.nchild_t(result.t) >= 2)))))
+
+    def dt_post_shape(S, tree, leaf, result):
+        return VBool(pruned_shape(S.H, S.old, leaf, result))
+
+    def dt_post_numbers(S, tree, leaf, result):
+        H, H0 = S.H, S.old
+        root = root0(H0, tree)
+        return VBool(renum(H, H0, root, z3.Select(H0.f["val_num"], leaf.t), H0.terms(root).n))
+
+    _SPEC["renum"] = renum
+    _SPEC["requires"] = dt_requires
+    reg.add(Contract(
+        target="trees.trees.delete_terminal", prop="C11", args=dict(tree=REF, leaf=REF),
+        requires=dt_requires, modifies=["nchild", "child", "has_num", "val_num"],
+        ensures={"returns_lowest_surviving_ancestor": dt_post_result,
+                 "leaf_and_emptied_unary_ancestors_are_unlinked_nothing_else": dt_post_shape,
+                 "later_tokens_move_down_by_one_others_keep_their_number": dt_post_numbers},
+        result_type=REF,
+        loops={0: dict(inv=climb_inv, variant=lambda S: S.H.depth(S.root)),
+               1: dict(inv=prune_inv, variant=lambda S: S.old.depth(S.final("leaf"))),
+               2: dict(inv=renum_inv)},
+        solver_hints={"inv1.keep": {"cli_s": 30}, "post.": {"cli_s": 30}},
+    ))
+
+
+def lemma_renumbered_without_holes(reg, repo):
+    """over the contract of delete_terminal: if the tokens of the tree were numbered 1..n, the surviving tokens are
+    numbered 1..n-1 in the same order (token i keeps i+1 before the deleted one, gets i after it)"""
+    from pyvc.heap import Heap
+    from contracts.common import terms_facts
+    H0, H1 = Heap.fresh("N"), Heap.fresh("M")
+    tree, leaf = VRef(z3.Int("n_tree")), VRef(z3.Int("n_leaf"))
+
+    class S(object):
+        pass
+    S.H = H0
+    S.old = H0
+    root = H0.anc(tree, VInt(0))
+    T = H0.terms(root)
+    i, k = z3.Int("n_i"), z3.Int("n_k")
+    j = z3.Int(fresh_name("nj"))
+    v0 = lambda m: z3.Select(H0.f["val_num"], m)
+    v1 = lambda m: z3.Select(H1.f["val_num"], m)
+    hyp = [tobool(_SPEC["requires"](S, tree, leaf)), tobool(terms_facts(H0, root)),
+           _SPEC["renum"](H1, H0, root, v0(leaf.t), T.n),
+           # numbered 1..n, and the leaf is the k-th token
+           z3.ForAll([j], z3.Implies(z3.And(0 <= j, j < T.n), v0(T.get(j).t) == j + 1)),
+           0 <= k, k < T.n, T.get(k).t == leaf.t, 0 <= i, i < T.n, i != k]
+    return [("surviving_tokens_are_numbered_1_to_n_minus_1", hyp,
+             v1(T.get(i).t) == z3.If(i < k, i + 1, i))]
+
+
+LEMMAS = {"renumbered_without_holes": lemma_renumbered_without_holes}
